@@ -319,7 +319,7 @@ Module T_detect_cut. Import LexCut. Local Open Scope bool_scope. Local Open Scop
 Import LexModel LexBounds UnitProgress. Local Open Scope Z_scope.
 Theorem C13_detect_cut :
   forall a t z,
-  plain a -> tchar t -> detect_unit (a ++ t :: z) = detect_t a t.
+  plain a -> tchar t -> detect_unit (a ++ t :: z) = detect_t a t (starts (ischr 10%N) z).
 Proof. exact (@LexCut.detect_cut). Qed.
 End T_detect_cut.
 Definition C13_detect_cut := @T_detect_cut.C13_detect_cut.
@@ -327,11 +327,24 @@ Definition C13_detect_cut := @T_detect_cut.C13_detect_cut.
 Module T_detect_t_shape. Import LexCut. Local Open Scope bool_scope. Local Open Scope Z_scope.
 Import LexModel LexBounds UnitProgress. Local Open Scope Z_scope.
 Theorem C13_detect_t_shape :
-  forall a t,
+  forall a t lf,
   plain a ->
-  (u_term (detect_t a t) = (if (t =? 10)%N then TERM_NL else TERM_SEMICOLON) /\ u_consumed (detect_t a t) = Z.of_nat (length a) + 1) \/
-  (u_term (detect_t a t) = TERM_NONE /\ ty (u_hdr (detect_t a t)) = T_INVALID /\ 1 <= u_consumed (detect_t a t) <= Z.of_nat (length a)).
+  (u_term (detect_t a t lf) = (if (t =? 59)%N then TERM_SEMICOLON else TERM_NL) /\
+   u_consumed (detect_t a t lf) = Z.of_nat (length a) + (if (t =? 13)%N && lf then 2 else 1)) \/
+  (u_term (detect_t a t lf) = TERM_NONE /\ ty (u_hdr (detect_t a t lf)) = T_INVALID /\ 1 <= u_consumed (detect_t a t lf) <= Z.of_nat (length a)).
 Proof. exact (@LexCut.detect_t_shape). Qed.
 End T_detect_t_shape.
 Definition C13_detect_t_shape := @T_detect_t_shape.C13_detect_t_shape.
+
+Module T_detect_t_cr. Import LexCut. Local Open Scope bool_scope. Local Open Scope Z_scope.
+Import LexModel LexBounds UnitProgress. Local Open Scope Z_scope.
+Theorem C13_detect_t_cr :
+  forall a,
+  plain a ->
+  u_hdr (detect_t a 13%N true) = u_hdr (detect_t a 13%N false) /\ u_data (detect_t a 13%N true) = u_data (detect_t a 13%N false) /\
+  ((u_consumed (detect_t a 13%N false) = Z.of_nat (length a) + 1 /\ u_consumed (detect_t a 13%N true) = Z.of_nat (length a) + 2) \/
+   (detect_t a 13%N true = detect_t a 13%N false /\ 1 <= u_consumed (detect_t a 13%N false) <= Z.of_nat (length a))).
+Proof. exact (@LexCut.detect_t_cr). Qed.
+End T_detect_t_cr.
+Definition C13_detect_t_cr := @T_detect_t_cr.C13_detect_t_cr.
 
